@@ -40,7 +40,8 @@ def cases(tier):
             stride = 2
         mod = importlib.import_module(f"harness.{src}")
         for k, c in enumerate(mod.cases("quick")):
-            forced = src == "C06" and c.get("fam") == "sym2" and "/E1-" in c["id"]  # complex operators on a combined envelope
+            forced = (src == "C06" and c.get("fam") == "sym2" and "/E1-" in c["id"]) or \
+                     (src == "C10" and "-M/" in c["id"] and c["id"].startswith("resize/C"))  # Matrix-level product spaces
             if k % stride and not forced:
                 continue
             d = dict(c)
